@@ -1,4 +1,5 @@
 import Rtsp.Model.UdpDemux
+import Rtsp.Model.PeerSession
 import Rtsp.Drv.Util
 /-
 Line protocol of the `peer` domain, unit level (UDP demultiplexing).
@@ -11,6 +12,14 @@ Line protocol of the `peer` domain, unit level (UDP demultiplexing).
   peer sstat <cb>                        → bytes <b> pkts <p> last <t> calls <total>
   peer cinit <anyport> <ip> <port>       → ok
   peer cpkt <ip> <port> <len> <now>      → acc|drop rp <readPort> last <t> n <delivered>
+Session level (Model/PeerSession.lean):
+  peer xinit <udp 0|1>                                   → ok
+  peer xconn <cid> <ip> <zone|->                         → <dump>
+  peer xreq <cid> <method> <sid|-> <udp|tcp> <rec 0|1> <media> <cport> <now>
+                                                         → <status> <dump>
+  peer xclose <cid>                                      → <dump>
+  peer xdgram <rtp|rtcp> <ip> <port>                     → to <sid> <media> | drop
+  dump = `conns <cid>@<sid|->,… sess <sid>:<state>:<proto|->:<nmedias>,…`
 IPs are hex byte strings (`-` = nil), ports and times are decimal Go ints.
 -/
 namespace Rtsp.Drv.Peer
@@ -67,12 +76,71 @@ def unitOps (srv : IO.Ref Srv) (cl : IO.Ref CL) (args : List String) : IO (Optio
     | _, _, _, _ => return some "bad-op"
   | _ => return none
 
+def stateName : SState → String
+  | .initial => "initial" | .prePlay => "prePlay" | .play => "play"
+  | .preRecord => "preRecord" | .record => "record"
+
+def protoName : Option Proto → String
+  | none => "-" | some .udp => "udp" | some .tcp => "tcp"
+
+def optNat : Option Nat → String
+  | none => "-" | some n => toString n
+
+def dump (sv : Server) : String :=
+  let cs := sv.conns.map fun c => s!"{c.id}@{optNat c.session}"
+  let ss := sv.sessions.map fun s => s!"{s.id}:{stateName s.state}:{protoName s.transport}:{s.medias.length}"
+  s!"conns {if cs.isEmpty then "-" else ",".intercalate cs} sess {if ss.isEmpty then "-" else ",".intercalate ss}"
+
+def parseMethod : String → Option Method
+  | "OPTIONS" => some .options | "ANNOUNCE" => some .announce | "SETUP" => some .setup
+  | "PLAY" => some .play | "RECORD" => some .record | "PAUSE" => some .pause
+  | "TEARDOWN" => some .teardown | "GET_PARAMETER" => some .getParameter
+  | _ => none
+
+def sessOps (sv : IO.Ref Server) (args : List String) : IO (Option String) := do
+  match args with
+  | ["xinit", udp] => sv.set { udp := udp == "1" }; return some "ok"
+  | ["xconn", cid, ip, zone] =>
+    match cid.toNat?, unhex ip with
+    | some c, some i =>
+      let s := (← sv.get).openConn c i (if zone == "-" then "" else zone)
+      sv.set s; return some (dump s)
+    | _, _ => return some "bad-op"
+  | ["xreq", cid, m, sid, proto, rec, media, cport, now] =>
+    match cid.toNat?, parseMethod m, media.toNat?, cport.toInt?, now.toInt? with
+    | some c, some meth, some md, some cp, some t =>
+      let sidv := if sid == "-" then some none else sid.toNat?.map some
+      match sidv with
+      | none => return some "bad-op"
+      | some sidv =>
+        let r : Req := { method := meth, sid := sidv, proto := if proto == "tcp" then .tcp else .udp,
+                         modeRecord := rec == "1", media := md, cport := cp }
+        let (s, st) := (← sv.get).request c r t
+        sv.set s; return some s!"{st} {dump s}"
+    | _, _, _, _, _ => return some "bad-op"
+  | ["xclose", cid] =>
+    match cid.toNat? with
+    | some c => let s := (← sv.get).closeConn c; sv.set s; return some (dump s)
+    | none => return some "bad-op"
+  | ["xdgram", ch, ip, port] =>
+    match unhex ip, port.toInt? with
+    | some i, some p =>
+      match (← sv.get).datagram (ch == "rtcp") i p with
+      | some (sid, m) => return some s!"to {sid} {m}"
+      | none => return some "drop"
+    | _, _ => return some "bad-op"
+  | _ => return none
+
 def mk : IO Handler := do
   let srv ← IO.mkRef ({} : Srv)
   let cl ← IO.mkRef ({ anyPort := false, readIP := [], readPort := 0 } : CL)
+  let sv ← IO.mkRef ({} : Server)
   return fun args => do
     match ← unitOps srv cl args with
     | some r => return r
-    | none => return "bad-op"
+    | none =>
+      match ← sessOps sv args with
+      | some r => return r
+      | none => return "bad-op"
 
 end Rtsp.Drv.Peer
